@@ -125,9 +125,90 @@ def build_config(res, label, especs, ws, gen_for, lib_head, extra_main='', pair_
     return failed
 
 
+LINK_MAIN = r'''// a freestanding program: no std, no `alloc`, no #[global_allocator]; it must LINK and exit with status 0
+#![no_std]
+#![no_main]
+#![allow(warnings)]
+use core::str::FromStr;
+use strum::{EnumCount, IntoEnumIterator, VariantNames, EnumMessage, EnumProperty, IntoDiscriminant, VariantArray};
+
+#[derive(Debug, Clone, Copy, PartialEq, strum::EnumString, strum::EnumIter, strum::EnumCount, strum::VariantNames, strum::IntoStaticStr,
+         strum::FromRepr, strum::AsRefStr, strum::EnumMessage, strum::EnumProperty, strum::EnumDiscriminants, strum::EnumIs,
+         strum::VariantArray, strum::EnumTable)]
+#[strum(serialize_all = "kebab-case")]
+enum Mode {
+    #[strum(message = "ro", props(level = 1))]
+    ReadOnly,
+    ReadWrite,
+}
+#[derive(Debug, PartialEq, strum::Display, strum::EnumTryAs)]
+enum Msg {
+    #[strum(to_string = "n={0}")]
+    Num(u8),
+    Plain,
+}
+
+#[link(name = "c")]
+extern "C" {}
+#[no_mangle]
+pub extern "C" fn rust_eh_personality() {}
+#[panic_handler]
+fn panic(_: &core::panic::PanicInfo) -> ! { loop {} }
+
+struct Buf { b: [u8; 32], n: usize }
+impl core::fmt::Write for Buf {
+    fn write_str(&mut self, s: &str) -> core::fmt::Result { for x in s.bytes() { if self.n < 32 { self.b[self.n] = x; self.n += 1; } } Ok(()) }
+}
+
+#[no_mangle]
+pub extern "C" fn main(_argc: i32, _argv: *const *const u8) -> i32 {
+    let mut bad = 0;
+    if Mode::from_str("read-write") != Ok(Mode::ReadWrite) { bad += 1; }
+    if Mode::from_str("nope") != Err(strum::ParseError::VariantNotFound) { bad += 1; }
+    if Mode::iter().count() != Mode::COUNT { bad += 1; }
+    if <Mode as VariantNames>::VARIANTS != ["read-only", "read-write"] { bad += 1; }
+    if <Mode as VariantArray>::VARIANTS.len() != 2 { bad += 1; }
+    let s: &'static str = Mode::ReadOnly.into();
+    if s != "read-only" || Mode::ReadWrite.as_ref() != "read-write" { bad += 1; }
+    if Mode::from_repr(1) != Some(Mode::ReadWrite) { bad += 1; }
+    if Mode::ReadOnly.get_message() != Some("ro") || Mode::ReadOnly.get_int("level") != Some(1) { bad += 1; }
+    if Mode::ReadOnly.discriminant() != ModeDiscriminants::ReadOnly || !Mode::ReadWrite.is_read_write() { bad += 1; }
+    let t = ModeTable::filled(3u8);
+    if t[Mode::ReadOnly] != 3 { bad += 1; }
+    let mut w = Buf { b: [0; 32], n: 0 };
+    let _ = core::fmt::write(&mut w, format_args!("{}|{}", Msg::Num(7), Msg::Plain));
+    if &w.b[..w.n] != b"n=7|Plain" { bad += 1; }
+    if Msg::Num(7).try_as_num() != Some(7) { bad += 1; }
+    bad
+}
+'''
+
+
+def link_stage(res):
+    """the derives and the runtime crate (default features off) inside a freestanding #![no_std] BINARY without an allocator:
+    it must link (a lib never shows a missing allocator) and exit 0"""
+    import subprocess, shutil
+    d = os.path.join(runner.SCRATCH, 'ws', 'c19link')
+    os.makedirs(os.path.join(d, 'src'), exist_ok=True)
+    runner._write_if_changed(os.path.join(d, 'src', 'main.rs'), LINK_MAIN)
+    runner._write_if_changed(os.path.join(d, 'Cargo.toml'),
+                             '[package]\nname = "c19link"\nversion = "0.0.0"\nedition = "2021"\n\n[workspace]\n\n[dependencies]\n'
+                             'strum = { path = "%s/strum", default-features = false, features = ["derive"] }\n\n'
+                             '[profile.dev]\npanic = "abort"\ndebug = false\nincremental = false\n' % runner.REPO)
+    runner._write_if_changed(os.path.join(d, '.cargo', 'config.toml'), '[net]\noffline = true\n[build]\ntarget-dir = "%s"\n' % os.path.join(runner.SCRATCH, 'target-c19link'))
+    if not os.path.exists(os.path.join(d, 'Cargo.lock')):
+        shutil.copy(os.path.join(runner.REPO, 'Cargo.lock'), os.path.join(d, 'Cargo.lock'))
+    p = subprocess.run(['cargo', 'run', '--offline', '-q'], cwd=d, env=runner.CARGO_ENV, stdout=subprocess.PIPE, stderr=subprocess.PIPE, text=True, timeout=1800)
+    res.cov['nostd_link'] = {'exit': p.returncode, 'what': 'freestanding #![no_std] #![no_main] binary, 15 derives on two enums, strum default-features = false, no allocator: built, linked, run'}
+    if p.returncode != 0:
+        res.violation({'kind': 'nostd_link', 'exit': p.returncode, 'stderr': p.stderr[-3000:], 'source': LINK_MAIN,
+                       'what': 'a #![no_std] program without an allocator that uses the derives does not build / link / run to exit 0 (exit = number of wrong answers when it runs)'})
+
+
 def run(tier, seed, rng):
     res = Result('C19', tier, seed)
     proof_stage(res, 'C19')
+    link_stage(res)
     especs = collect(tier, seed)
     if tier == 'quick':
         especs = especs[::2]
